@@ -722,7 +722,7 @@ Program generate_program(Rng &r, const GenConfig &c) {
   GenConfig ci = c;
   ci.no_exit = false;
   int k = (int)r.range(1, std::max(1, c.max_funcs));
-  bool shared = r.coin(); // shared variable names between caller and callee
+  bool shared = r.coin() && !getenv("SIM_NO_SHARED"); // shared variable names between caller and callee
   std::vector<FGen *> gens;
   std::vector<Function> sigs(k + 1);
   for (int i = 0; i <= k; i++) {
